@@ -63,6 +63,8 @@ func (w *World) reachableModuleFuncs(root *ssa.Function) ([]*FuncInfo, map[*ssa.
 }
 
 func runC07(w *World, r *Report) {
+	r.Rule("stateless", "the parser keeps no package-level state that a frame can change (a cache, a lock left held by a recovered panic, a shared decoding target): what one frame does cannot wedge or corrupt the parsing of the next", 8)
+	importStateless(w, r, "stateless")
 	r.Rule("contain", "the entry point recovers from decoding panics and rejects headerless input", 1)
 	r.Rule("nogo", "no goroutine is started below the entry point", 1)
 	r.Rule("exit", "no reachable call can end the process", 1)
@@ -112,98 +114,9 @@ func runC07(w *World, r *Report) {
 		}
 		if di >= 0 {
 			if ds, ok := pfi.Decl.Body.List[di].(*ast.DeferStmt); ok {
-				if fl, ok := ds.Call.Fun.(*ast.FuncLit); ok {
-					hasRecover, assignsErr := false, false
-					ast.Inspect(fl.Body, func(m ast.Node) bool {
-						switch y := m.(type) {
-						case *ast.CallExpr:
-							if id, ok := y.Fun.(*ast.Ident); ok && id.Name == "recover" {
-								if _, isB := info.Uses[id].(*types.Builtin); isB {
-									hasRecover = true
-								}
-							}
-						case *ast.AssignStmt:
-							for i, l := range y.Lhs {
-								if id, ok := l.(*ast.Ident); ok && errObj != nil && info.Uses[id] == errObj {
-									// must not be assigned nil
-									if i < len(y.Rhs) {
-										if rid, ok := unparen(y.Rhs[i]).(*ast.Ident); !ok || rid.Name != "nil" {
-											assignsErr = true
-										}
-									}
-								}
-							}
-						}
-						return true
-					})
-					switch {
-					case errObj == nil:
-						why = "the entry point has no named error result a deferred function could set"
-					case !hasRecover:
-						why = "the deferred function does not call recover()"
-					case !assignsErr:
-						why = "the deferred function recovers but does not assign a non-nil error result: a decoding panic would be swallowed as (nil, nil)"
-					default:
-						okDefer = true
-					}
-				} else if hf := w.FuncOf(w.calleeOf(info, ds.Call)); hf != nil && hf.Decl.Body != nil && errObj != nil {
-					// a named helper: it must call recover() itself (recover only works in the deferred
-					// function's own frame) and assign a non-nil error through the parameter that receives &err
-					var errParam types.Object
-					pi := 0
-					for _, fl := range hf.Decl.Type.Params.List {
-						for _, nm := range fl.Names {
-							if pi < len(ds.Call.Args) {
-								if u, ok := unparen(ds.Call.Args[pi]).(*ast.UnaryExpr); ok && u.Op == token.AND {
-									if id, ok := unparen(u.X).(*ast.Ident); ok && info.Uses[id] == errObj {
-										errParam = hf.Pkg.TypesInfo.Defs[nm]
-									}
-								}
-							}
-							pi++
-						}
-					}
-					hinfo := hf.Pkg.TypesInfo
-					hasRecover, assignsErr := false, false
-					var walk func(n ast.Node)
-					walk = func(n ast.Node) {
-						ast.Inspect(n, func(m ast.Node) bool {
-							switch y := m.(type) {
-							case *ast.FuncLit:
-								return false // recover() inside a nested closure does not stop the panic
-							case *ast.CallExpr:
-								if id, ok := y.Fun.(*ast.Ident); ok && id.Name == "recover" {
-									if _, isB := hinfo.Uses[id].(*types.Builtin); isB {
-										hasRecover = true
-									}
-								}
-							case *ast.AssignStmt:
-								for i, l := range y.Lhs {
-									if st, ok := unparen(l).(*ast.StarExpr); ok && errParam != nil {
-										if id, ok := unparen(st.X).(*ast.Ident); ok && hinfo.Uses[id] == errParam && i < len(y.Rhs) {
-											if rid, ok := unparen(y.Rhs[i]).(*ast.Ident); !ok || rid.Name != "nil" {
-												assignsErr = true
-											}
-										}
-									}
-								}
-							}
-							return true
-						})
-					}
-					walk(hf.Decl.Body)
-					switch {
-					case errParam == nil:
-						why = "the deferred helper is not handed the address of the error result"
-					case !hasRecover:
-						why = "the deferred helper does not call recover() in its own frame"
-					case !assignsErr:
-						why = "the deferred helper recovers but does not assign a non-nil error through the pointer it is given: a decoding panic would be swallowed as (nil, nil)"
-					default:
-						okDefer = true
-					}
-				} else {
-					why = "the deferred call is neither a function literal nor a module function the rule can inspect"
+				okDefer, why = recoverDefer(w, pfi, ds, errObj)
+				if !okDefer && strings.Contains(why, "swallowed") {
+					why += " as (nil, nil)"
 				}
 			}
 		}
@@ -640,6 +553,7 @@ func recoverDefer(w *World, fi *FuncInfo, ds *ast.DeferStmt, errObj types.Object
 	if errObj == nil {
 		return false, "the function has no named error result a deferred function could set"
 	}
+	repanics := ""
 	scan := func(body *ast.BlockStmt, hinfo *types.Info, assigned func(l ast.Expr) bool) (hasRecover, assignsErr bool) {
 		ast.Inspect(body, func(m ast.Node) bool {
 			switch y := m.(type) {
@@ -649,6 +563,19 @@ func recoverDefer(w *World, fi *FuncInfo, ds *ast.DeferStmt, errObj types.Object
 				if id, ok := y.Fun.(*ast.Ident); ok && id.Name == "recover" {
 					if _, isB := hinfo.Uses[id].(*types.Builtin); isB {
 						hasRecover = true
+					}
+				}
+				// the handler must end every panic: one that panics again (for some kinds of panic value)
+				// lets those through to the caller
+				if id, ok := y.Fun.(*ast.Ident); ok && id.Name == "panic" {
+					if _, isB := hinfo.Uses[id].(*types.Builtin); isB {
+						repanics = w.Pos(y.Pos())
+					}
+				}
+				if f := w.calleeOf(hinfo, y); f != nil && f.Pkg() != nil {
+					n := f.Name()
+					if (f.Pkg().Path() == "log" || strings.HasSuffix(f.Pkg().Path(), "logrus")) && (strings.HasPrefix(n, "Panic") || strings.HasPrefix(n, "Fatal")) {
+						repanics = w.Pos(y.Pos())
 					}
 				}
 			case *ast.AssignStmt:
@@ -676,6 +603,8 @@ func recoverDefer(w *World, fi *FuncInfo, ds *ast.DeferStmt, errObj types.Object
 			return false, "the deferred function does not call recover()"
 		case !ae:
 			return false, "the deferred function recovers but does not assign a non-nil error result: a panic would be swallowed"
+		case repanics != "":
+			return false, "the deferred function panics again (" + repanics + ") for some recovered values: those panics leave the parser instead of becoming an error"
 		}
 		return true, ""
 	}
@@ -714,6 +643,8 @@ func recoverDefer(w *World, fi *FuncInfo, ds *ast.DeferStmt, errObj types.Object
 		return false, "the deferred helper does not call recover() in its own frame"
 	case !ae:
 		return false, "the deferred helper recovers but does not assign a non-nil error through the pointer it is given"
+	case repanics != "":
+		return false, "the deferred helper panics again (" + repanics + ") for some recovered values: those panics leave the parser instead of becoming an error"
 	}
 	return true, ""
 }
